@@ -1858,6 +1858,10 @@ PROBE_WHAT = {
 	'ub:negative-index': '`xs[-1]` is emitted verbatim: out-of-bounds access in C++ (aborts under -D_GLIBCXX_ASSERTIONS)',
 	'range:args-reevaluated': '`for i in range(n): ... n += 1` / `for i in range(len(xs)): xs.append(..)`: Python evaluates the range() arguments once, the emitted '
 		'`for (auto i = 0; i < n; i += 1)` re-evaluates stop (and step) on every iteration: the trip count differs when the body changes what they read',
+	'range:loopvar-shadowed': '`i = 5; for i in range(n): ...; return i`: Python rebinds the one function-level `i`; the emitted `for (auto i = 0; ...)` always declares a new `i` '
+		'that shadows the outer one, which keeps its old value after the loop (also when `i` is a parameter)',
+	'range:loopvar-assigned': '`for i in range(n): i = i + 1; ...`: Python takes the next value of the range on every iteration whatever the body did to `i`; the emitted '
+		'C-style loop continues from the value the body left (iterations are skipped)',
 	'reject:block-scoped-name': 'a name first assigned inside a nested block (both if/else branches, a while/for body, the for variable) and read after the block '
 		'is valid Python (function-level scope) but is rejected: Errors.UnresolvedSymbol at the read, and Errors.Fatal <- RecursionError when the read is in `v = v + 1` '
 		'(the scope condition of C01.stmt_agree; the emitter never hoists a declaration)',
@@ -1922,6 +1926,19 @@ def probe_program(rng: random.Random, key: str | None = None) -> tuple[str, dict
 			f'\tn = {rng.randint(1, 3)}\n\tt = 0\n\tfor i in range(n):\n\t\tif n < {lim}:\n\t\t\tn += 1\n\t\tt += i + {e1}\n\treturn t * 100 + n\n',
 			f'\txs = [{e1}, {e2}]\n\tt = 0\n\tfor i in range(len(xs)):\n\t\tif len(xs) < {lim}:\n\t\t\txs.append(i)\n\t\tt += 1\n\treturn t * 100 + len(xs)\n',
 			f'\tn = {rng.randint(2, 4)}\n\tt = 0\n\tfor i in range(0, n + 1, 1):\n\t\tn -= 1\n\t\tt += 1\n\treturn t * 100 + n + {e1}\n',
+		])
+	elif key == 'range:loopvar-shadowed':
+		n = rng.randint(2, 5)
+		body = rng.choice([
+			f'\ti = {rng.randint(7, 9)}\n\tt = 0\n\tfor i in range({n}):\n\t\tt += i + {e1}\n\treturn t * 100 + i\n',
+			f'\tt = 0\n\tfor {a} in range({n}):\n\t\tt += {a}\n\treturn t * 100 + {a} + 50\n',
+			f'\ti = {rng.randint(7, 9)}\n\tfor i in range(1, {n}, 2):\n\t\tpass\n\treturn i + {e1}\n',
+		])
+	elif key == 'range:loopvar-assigned':
+		n = rng.randint(3, 6)
+		body = rng.choice([
+			f'\tt = 0\n\tfor i in range({n}):\n\t\ti = i + 1\n\t\tt += i\n\treturn t + {e1}\n',
+			f'\tt = 0\n\tfor i in range({n}):\n\t\tif i % 2 == 0:\n\t\t\ti += 2\n\t\tt += i\n\treturn t + {e1}\n',
 		])
 	elif key == 'reject:block-scoped-name':
 		v = rng.choice(['v', 'w', 'acc'])
